@@ -928,6 +928,36 @@ def _peer(ck: Checker, prog: Program):
         ck.ok("C07.R1", q, "north = smallest, east = largest |relative azimuth|", nontrivial=False)
     else:
         ck.violation("C07.R1", q, "numeric azimuth roles", "numeric component codes are not resolved by argmin / argmax of the relative azimuth", loc=f.loc())
+    # a vertical coded UP or VER comes with horizontals coded by azimuth: on the path where that code is found, the flag that selects the
+    # numeric (argmin / argmax) resolution of the horizontals is set
+    num_ifs = [x for x in own_nodes(f.node) if isinstance(x, ast.If) and isinstance(x.test, ast.Name)
+               and any(isinstance(c_, ast.Call) and call_name(c_) in ("argmin", "argmax") for b_ in x.body for c_ in ast.walk(b_))]
+    if len(num_ifs) == 1:
+        flag = num_ifs[0].test.id
+
+        def sets_flag(stmts) -> bool:
+            return any(isinstance(y, ast.Assign) and any(isinstance(t, ast.Name) and t.id == flag for t in y.targets)
+                       and isinstance(y.value, ast.Constant) and y.value.value is True for b_ in stmts for y in ast.walk(b_))
+        for code in ("UP", "VER"):
+            sites = [x for x in own_nodes(f.node) if isinstance(x, ast.Assign) and isinstance(x.value, ast.Call) and call_name(x.value) == "index"
+                     and len(x.value.args) == 1 and isinstance(x.value.args[0], ast.Constant) and x.value.args[0].value == code]
+            if not sites:
+                continue            # the code is looked up some other way: the literal rule above still requires it to be present
+            for site in sites:
+                par_ = parent_of(site)
+                blk = None
+                for fld in ("body", "orelse", "finalbody"):
+                    sub = getattr(par_, fld, None)
+                    if isinstance(sub, list) and any(y is site for y in sub):
+                        blk = sub
+                after_ = blk[[i for i, y in enumerate(blk) if y is site][0] + 1:] if blk is not None else []
+                also = list(par_.orelse) if isinstance(par_, ast.Try) and blk is par_.body else []
+                if sets_flag(after_) or sets_flag(also):
+                    ck.ok("C07.R1", q, f"vertical coded {code}: horizontals resolved by azimuth", nontrivial=False)
+                else:
+                    ck.violation("C07.R1", q, f"vertical coded {code}",
+                                 f"when the vertical is coded {code} the flag `{flag}` that selects the azimuth (argmin / argmax) resolution of the horizontals is not set: "
+                                 f"a set with numeric horizontal codes is sent to the letter-code branch and refused", loc=f.loc(site))
     # unequal time steps raise
     guards = [x for x in own_nodes(f.node) if isinstance(x, ast.If) and isinstance(x.test, ast.Compare) and isinstance(x.test.ops[0], ast.NotEq)
               and dts_l in {n.id for n in ast.walk(x.test) if isinstance(n, ast.Name)} | {n.id for lp_ in [parent_of(x)] if isinstance(lp_, ast.For) for n in ast.walk(lp_.iter) if isinstance(n, ast.Name)}
